@@ -10,6 +10,7 @@ import (
 	"github.com/hneemann/parser2/listMap"
 	"math"
 	"sort"
+	"sync"
 )
 
 // NewListConvert creates a list containing the given elements if the elements
@@ -42,7 +43,7 @@ func NewListOfMaps[I any](toMap ToMapInterface[I], items []I) *List {
 
 // NewList creates a new list containing the given elements
 func NewList(items ...Value) *List {
-	return &List{items: items, itemsPresent: true, iterable: createSliceIterable(items), size: len(items)}
+	return &List{items: items, itemsPresent: true, producer: createSliceIterable(items), size: len(items)}
 }
 
 func createSliceIterable(items []Value) ListProducer {
@@ -59,24 +60,44 @@ func createSliceIterable(items []Value) ListProducer {
 
 // NewListFromIterable creates a list based on the given Iterable
 func NewListFromIterable(li ListProducer) *List {
-	return &List{iterable: li, itemsPresent: false, size: -1}
+	return &List{producer: li, itemsPresent: false, size: -1}
 }
 
 // NewListFromSizedIterable creates a list based on the given Iterable.
 // In contrast to NewListFromIterable, this function is to be used if the
 // size of the iterable is known.
 func NewListFromSizedIterable(li ListProducer, size int) *List {
-	return &List{iterable: li, itemsPresent: false, size: size}
+	return &List{producer: li, itemsPresent: false, size: size}
 }
 
 type ListProducer = func(funcGen.Stack[Value]) iterator.Producer[Value]
 
 // List represents a list of values
 type List struct {
+	// mutex guards items, itemsPresent and producer, which are modified when a
+	// lazy list is evaluated or appended to. A list can be a constant of a
+	// generated function, which is shared by all evaluations of this function,
+	// and these evaluations may be executed concurrently.
+	mutex        sync.Mutex
 	items        []Value
 	itemsPresent bool
-	iterable     ListProducer
+	producer     ListProducer
 	size         int
+}
+
+// iterable returns the producer that creates the items of the list
+func (l *List) iterable(st funcGen.Stack[Value]) iterator.Producer[Value] {
+	l.mutex.Lock()
+	producer := l.producer
+	l.mutex.Unlock()
+	return producer(st)
+}
+
+// evaluated returns the items of the list and true if the list is already evaluated
+func (l *List) evaluated() ([]Value, bool) {
+	l.mutex.Lock()
+	defer l.mutex.Unlock()
+	return l.items, l.itemsPresent
 }
 
 func (l *List) ToMap() (Map, bool) {
@@ -145,7 +166,7 @@ func (l *List) ToList() (*List, bool) {
 }
 
 func (l *List) Eval(st funcGen.Stack[Value]) error {
-	if !l.itemsPresent {
+	if _, ok := l.evaluated(); !ok {
 		var it []Value
 		for v, err := range l.iterable(st) {
 			if err != nil {
@@ -153,9 +174,14 @@ func (l *List) Eval(st funcGen.Stack[Value]) error {
 			}
 			it = append(it, v)
 		}
-		l.items = it
-		l.itemsPresent = true
-		l.iterable = createSliceIterable(it)
+		l.mutex.Lock()
+		// a concurrent evaluation may have been faster
+		if !l.itemsPresent {
+			l.items = it
+			l.itemsPresent = true
+			l.producer = createSliceIterable(it)
+		}
+		l.mutex.Unlock()
 	}
 	return nil
 }
@@ -223,7 +249,8 @@ func (l *List) ToSlice(st funcGen.Stack[Value]) ([]Value, error) {
 	if err != nil {
 		return nil, err
 	}
-	return l.items[0:len(l.items):len(l.items)], nil
+	items, _ := l.evaluated()
+	return items[0:len(items):len(items)], nil
 }
 
 // CopyToSlice creates a slice copy of all elements
@@ -232,8 +259,9 @@ func (l *List) CopyToSlice(st funcGen.Stack[Value]) ([]Value, error) {
 	if err != nil {
 		return nil, err
 	}
-	co := make([]Value, len(l.items))
-	copy(co, l.items)
+	items, _ := l.evaluated()
+	co := make([]Value, len(items))
+	copy(co, items)
 	return co, nil
 }
 
@@ -245,19 +273,22 @@ func (l *List) Append(st funcGen.Stack[Value]) (*List, error) {
 	if err != nil {
 		return nil, err
 	}
-	newList := append(l.items, st.Get(1))
+	item := st.Get(1)
+	l.mutex.Lock()
+	newList := append(l.items, item)
 	// Guarantee a copy operation the next time append is called on this
 	// list, which is only a rare special case, as the new list is usually
 	// appended to.
 	if len(l.items) != cap(l.items) {
 		l.items = l.items[:len(l.items):len(l.items)]
 	}
+	l.mutex.Unlock()
 	return NewList(newList...), nil
 }
 
 func (l *List) SizeIfKnown() (int, bool) {
-	if l.itemsPresent {
-		return len(l.items), true
+	if items, ok := l.evaluated(); ok {
+		return len(items), true
 	} else if l.size >= 0 {
 		return l.size, true
 	} else {
@@ -270,7 +301,8 @@ func (l *List) Size(st funcGen.Stack[Value]) (int, error) {
 	if err != nil {
 		return 0, err
 	}
-	return len(l.items), nil
+	items, _ := l.evaluated()
+	return len(items), nil
 }
 
 func ToFunc(name string, st funcGen.Stack[Value], n int, args int) (funcGen.Function[Value], error) {
@@ -479,9 +511,9 @@ func (l *List) Merge(sta funcGen.Stack[Value]) (*List, error) {
 }
 
 func (l *List) First(st funcGen.Stack[Value]) (Value, error) {
-	if l.itemsPresent {
-		if len(l.items) > 0 {
-			return l.items[0], nil
+	if items, ok := l.evaluated(); ok {
+		if len(items) > 0 {
+			return items[0], nil
 		}
 	} else {
 		for v, err := range l.iterable(st) {
@@ -492,9 +524,9 @@ func (l *List) First(st funcGen.Stack[Value]) (Value, error) {
 }
 
 func (l *List) Single(st funcGen.Stack[Value]) (Value, error) {
-	if l.itemsPresent {
-		if len(l.items) == 1 {
-			return l.items[0], nil
+	if items, ok := l.evaluated(); ok {
+		if len(items) == 1 {
+			return items[0], nil
 		}
 	} else {
 		var found bool
@@ -518,9 +550,9 @@ func (l *List) Single(st funcGen.Stack[Value]) (Value, error) {
 }
 
 func (l *List) Last(st funcGen.Stack[Value]) (Value, error) {
-	if l.itemsPresent {
-		if len(l.items) > 0 {
-			return l.items[len(l.items)-1], nil
+	if items, ok := l.evaluated(); ok {
+		if len(items) > 0 {
+			return items[len(items)-1], nil
 		}
 	} else {
 		var last Value
@@ -1378,7 +1410,7 @@ func (l *List) containsAllItems(st funcGen.Stack[Value], lookForList *List, fg *
 		return false, err
 	}
 
-	if l.itemsPresent && len(l.items) < len(lookFor) {
+	if items, ok := l.evaluated(); ok && len(items) < len(lookFor) {
 		return false, nil
 	}
 
